@@ -542,7 +542,7 @@ def run(ctx):
     quick = ctx.tier == "quick"
     timing = {}
     t0 = time.time()
-    _gen.regen(ctx, ["Hazard"])      # Gen/*.v regenerated from the source + Properties_Gen_*.v (tools/ctrans.py)
+    _gen.regen(ctx, ["Hazard", "Swsr"])      # Gen/*.v regenerated from the source + Properties_Gen_*.v (tools/ctrans.py)
     pr = ctx.coq_properties("Properties/Properties_C15.v")
     timing["coq"] = round(time.time() - t0, 1); t0 = time.time()
     exe = ctx.link("c15_queues", ["c15_queues.c"], exclude=EXCLUDE)
